@@ -2186,7 +2186,8 @@ func string_split(_ *Thread, b *Builtin, args Tuple, kwargs []Tuple) (Value, err
 
 // Precondition: max >= 0.
 func rsplitspace(s string, max int) []string {
-	res := make([]string, 0, max+1)
+	// The result has at most one field per two bytes of s, however large max is.
+	res := make([]string, 0, min(max, len(s)/2)+1)
 	end := -1 // index of field end, or -1 in a region of spaces.
 	for i := len(s); i > 0; {
 		r, sz := utf8.DecodeLastRuneInString(s[:i])
